@@ -3,7 +3,7 @@
 (* injective on all groups (so a parser CAN recover them), the six-part form is injective on fully         *)
 (* specified groups, and no reduced string of one group tuple is a six-part string of another.             *)
 (* One state per group tuple; the invariant ranges over all other tuples.                                  *)
-EXTENDS Obis
+EXTENDS Obis, ObisMap
 Vals == {0, 1, 25}
 Opt == Vals \cup {None}
 Groups == {<<a, b, c, d, e, f>> : a \in Opt, b \in Opt, c \in Vals, d \in Vals, e \in Opt, f \in Opt}
@@ -15,4 +15,13 @@ ReducedInjective == g # <<>> => \A h \in Groups : Reduced(g) = Reduced(h) => g =
 SixInjective == (g # <<>> /\ AllPresent(g)) => \A h \in Groups : (AllPresent(h) /\ SixPart(g) = SixPart(h)) => g = h
 NoCrossTalk == g # <<>> => \A h \in Groups : AllPresent(h) => Reduced(g) # SixPart(h)
 DigitDotDigit == g # <<>> => (HasDigitDotDigit(Reduced(g)) /\ (AllPresent(g) => HasDigitDotDigit(SixPart(g))))
+(* The two tables of ObisMap agree with each other: for every measurement (D = 7 or 8) the field name the decoders use is the   *)
+(* one the catalogue rules give for that code - quantity, phase suffix, "_total" for the time integral.                        *)
+QuantityName(q) == CASE q = 1 -> "active_power_import" [] q = 2 -> "active_power_export" [] q = 3 -> "reactive_power_import"
+                     [] q = 4 -> "reactive_power_export" [] q = 11 -> "current" [] q = 12 -> "voltage" [] OTHER -> "?"
+PhaseSuffix(p) == CASE p = NoPhase -> "" [] p = 1 -> "_l1" [] p = 2 -> "_l2" [] p = 3 -> "_l3" [] OTHER -> "?"
+RuleName(c, d) == QuantityName(Quantity(c)) \o PhaseSuffix(PhaseOfC(c)) \o (IF d = 8 THEN "_total" ELSE "")
+ASSUME NamesFollowRules == \A i \in 1..Len(NameTable) : LET k == NameTable[i][1] IN
+          k[2] \in {7, 8} => (CatalogueDomain(k[1], k[2], k[3]) /\ NameTable[i][2] = RuleName(k[1], k[2]))
+ASSUME NamesAreAFunction == \A i, j \in 1..Len(NameTable) : NameTable[i][1] = NameTable[j][1] => i = j
 =============================================================================
